@@ -14,9 +14,10 @@ ASSUMPTIONS = ["rows are identified by name (all names distinct, one directory)"
 def generators(tier, seed):
     if tier == "quick":
         return [dict(module="MC_C12", cfg="MC_C12_q", workers=4),
-                dict(module="MC_C12", cfg="MC_C12_rx", workers=4, limit=2500)]
+                dict(module="MC_C12", cfg="MC_C12_rx", workers=4, limit=2500),
+                dict(module="MC_C12", cfg="MC_C12_mix", workers=2)]      # the same text as LIKE / glob pattern and as regular expression in one query
     return [dict(module="MC_C12", cfg="MC_C12_q", workers=4),
-            dict(module="MC_C12", cfg="MC_C12_rx", workers=4)]
+            dict(module="MC_C12", cfg="MC_C12_rx", workers=4), dict(module="MC_C12", cfg="MC_C12_mix", workers=2)]
 
 MANIFEST = dict(
     design_ref="DESIGN.md §5 C12",
